@@ -134,7 +134,7 @@ def check_obstacle_outcome(ctx, pre_cells, pre_agent, state, label, payload):
     return old, new, floor0
 
 
-def obstacle_layout_case(ctx, layout, action=Action.MOVE_FORWARD, limit=20000):
+def obstacle_layout_case(ctx, layout, action=Action.MOVE_FORWARD, limit=2000):
     """all random outcomes of move_obstacles on one layout"""
     fn = transition_fs.transition_function_registry['move_obstacles']
     base = build(layout)
@@ -443,10 +443,13 @@ def run(ctx):
                 obstacle_layout_case(ctx, layout)
         # random larger layouts, all outcomes (bounded)
         for k in range(ctx.pick(3000, 40000)):
+            if ctx.out_of_time(0.45):  # an implementation with many more outcomes per step makes every layout slower
+                ctx.add('random_layouts_skipped_for_time')
+                break
             rng = gen.rng_for('C11rand', ctx.seed, ctx.shard, k)
             layout = rand_layout(rng, 5, 5, '.o#Ek', [5, 2, 1, 1, 1], 4)
             if any('o' in row for row in layout):
-                obstacle_layout_case(ctx, layout, rng.choice(list(Action)), limit=5000)
+                obstacle_layout_case(ctx, layout, rng.choice(list(Action)), limit=1000)
         # exhaustive telepod layouts on 2x3
         for layout in all_layouts(2, 3, '.RB', 4, 'RB'):
             idx += 1
@@ -473,18 +476,22 @@ def run(ctx):
         SHARED[0] = False
         for k in range(ctx.pick(300, 3000)):  # obstacle layouts from a palette too
             SHARED[0] = True
+            if ctx.out_of_time(0.7):
+                break
             rng = gen.rng_for('C11pal', ctx.seed, ctx.shard, k)
             layout = rand_layout(rng, 4, 4, '.o#Ek', [5, 3, 1, 1, 1], 4)
             if any('o' in row for row in layout):
                 ctx.hit('palette_layouts')
-                obstacle_layout_case(ctx, layout, rng.choice(list(Action)), limit=3000)
+                obstacle_layout_case(ctx, layout, rng.choice(list(Action)), limit=600)
         SHARED[0] = False
         for k in range(ctx.pick(300, 3000)):  # obstacles of a derived class, alone or mixed with plain ones
+            if ctx.out_of_time(0.8):
+                break
             rng = gen.rng_for('C11derived', ctx.seed, ctx.shard, k)
             layout = rand_layout(rng, 4, 4, '.p#Eo' if k % 2 else '.p#E', [5, 3, 1, 1, 2][: 5 if k % 2 else 4], 4, o='p')
             if any('p' in row or 'o' in row for row in layout):
                 ctx.hit('derived_obstacle_layouts')
-                obstacle_layout_case(ctx, layout, rng.choice(list(Action)), limit=3000)
+                obstacle_layout_case(ctx, layout, rng.choice(list(Action)), limit=600)
         seeded(ctx, ctx.pick(6000, 300000))
         with Patch() as patch:
             install_history_hooks(ctx, patch)
